@@ -7,6 +7,7 @@ CONSTANTS
   ArbTokLen = 3
   ArbPairLen = 2
   Carriers = {"form", "xsrfheader", "csrfheader"}
+  Handlers = {"plain", "stream"}
   Methods = {"POST", "PUT", "DELETE", "PATCH", "GET", "HEAD", "OPTIONS"}
 INVARIANT IssuedAccepted
 INVARIANT OtherRejected
